@@ -90,6 +90,13 @@ func genPlainCase(r *Rng, out *outFiles) {
 						}
 					}
 				}
+				if t.Kind == html.TokenKindComment {
+					// the documented hidden-comment form <!-- /* ... */ --> (a mutation can turn a near miss into one)
+					body := strings.TrimSpace(strings.TrimSuffix(strings.TrimPrefix(t.Value, "<!--"), "-->"))
+					if strings.HasPrefix(body, "/*") && strings.HasSuffix(body, "*/") {
+						plain = false
+					}
+				}
 			}
 		}
 	}
